@@ -247,6 +247,8 @@ func renderYAML(c map[string]interface{}, dir string) string {
 			switch r.capKind {
 			case "json":
 				b.WriteString("      - type: var/jsonpath\n        mapping:\n          tok: $.tok\n")
+			case "jsonnum":
+				b.WriteString("      - type: var/jsonpath\n        mapping:\n          tok: $.num\n")
 			case "hdr":
 				b.WriteString("      - type: var/header\n        mapping:\n          tok: X-Tok\n")
 			case "xpath":
@@ -291,6 +293,8 @@ func renderHCL(c map[string]interface{}, dir string) string {
 		switch r.capKind {
 		case "json":
 			b.WriteString("  postprocessor \"var/jsonpath\" {\n    mapping = {\n      tok = \"$.tok\"\n    }\n  }\n")
+		case "jsonnum":
+			b.WriteString("  postprocessor \"var/jsonpath\" {\n    mapping = {\n      tok = \"$.num\"\n    }\n  }\n")
 		case "hdr":
 			b.WriteString("  postprocessor \"var/header\" {\n    mapping = {\n      tok = \"X-Tok\"\n    }\n  }\n")
 		case "xpath":
